@@ -22,6 +22,9 @@ MOUNTS = {
 }
 
 
+CRATE_ROOTS = ("varlink/src/lib.rs", "varlink_parser/src/lib.rs", "varlink-certification/src/main.rs")
+
+
 def scratch_root():
     d = os.environ.get("VERIF_SCRATCH", "/var/tmp/varlink-verif")
     os.makedirs(d, exist_ok=True)
@@ -61,6 +64,13 @@ def make_overlay(dest, mounts=None):
             continue
         with open(fp, "a") as fh:
             fh.write('\n#[cfg(kani)]\n#[path = "%s"]\nmod %s;\n' % (hp, mod))
+        if rel in CRATE_ROOTS:
+            # crate roots additionally get one inner attribute on a new first line (harness stubs
+            # name std's allocator-parameterised HashMap); dead unless cfg(kani)
+            with open(fp) as fh:
+                body = fh.read()
+            with open(fp, "w") as fh:
+                fh.write("#![cfg_attr(kani, feature(allocator_api))]\n" + body)
         appended.append(rel)
     # tell rustc that cfg(kani) is expected (quietens check-cfg in native builds of the copy)
     return {"dest": dest, "appended": appended, "source_digest": tree_digest(REPO)}
